@@ -57,7 +57,7 @@ func runReplicaHistory(seed uint64, idx int) (in sx.V, out sx.V, tags []string) 
 	}
 	s.L.SetSlots(sets)
 	w := &world{s: s, cfg: cfg, answered: map[*stepper.Peer]int{}, shaken: map[*stepper.Peer]bool{}, closedC: map[int]bool{}, closedS: map[*stepper.Peer]bool{},
-		reqSeq: map[int]int{}, tagset: map[string]bool{}}
+		reqSeq: map[int]int{}, tagset: map[string]bool{}, choices: true}
 	lastWorld = w
 	defer w.s.Close()
 	nc := r.Range(1, 3)
@@ -117,7 +117,7 @@ func runReplicaHistory(seed uint64, idx int) (in sx.V, out sx.V, tags []string) 
 	// the input: as for the loop suite, with the replicas of each range's master
 	var pools, ranges []sx.V
 	for _, a := range cfg.nodes {
-		pools = append(pools, sx.L(sx.S(a), sx.Bool(true)))
+		pools = append(pools, sx.L(sx.S(a), sx.Bool(true), sx.Bool(isRep[a])))
 	}
 	for i, m := range masters {
 		ranges = append(ranges, sx.L(sx.I(bounds[i]), sx.I(bounds[i+1]-1), sx.S(m), sx.Strs(reps[m])))
@@ -138,6 +138,6 @@ func suiteReplicas(c *Ctx) {
 		if in == nil {
 			break
 		}
-		c.Emit("loopspec", in, out, tags...)
+		c.Emit("loop", in, out, tags...)
 	}
 }
